@@ -220,7 +220,7 @@ def orset(t, memo):
 def pow2_cases(tier):
     cs = []
     bt = G.scalar('bool')
-    for w in ((8, 32) if tier == 'quick' else (8, 16, 32, 64)):
+    for w in ((8, 32, 64) if tier == 'quick' else (8, 16, 32, 64)):
         for sgn in (0, 1):
             T = INTS[w][sgn]
             ty = G.scalar(T)
@@ -281,6 +281,18 @@ def pow2_cases(tier):
                         idx = {k_[2] for k_ in s_}
                         if idx != set(range(i, w)):
                             bad = 'bit %d of the smeared value is the OR of bits %s of v - 1, expected all bits %d..%d' % (i, sorted(idx), i, w - 1)
+                            # an incomplete smear is a definite defect: exhibit x = 2^j + 1 for a missing j (next power of two is 2^(j+1))
+                            from laneflow import ceval as CE
+                            for j in sorted(set(range(i, w)) - idx):
+                                if j + 1 >= (w - 1 if not sgn else w):
+                                    continue
+                                xv = (1 << j) + 1
+                                try:
+                                    got = CE.evaluate(t, {x: xv})
+                                except CE.NoValue:
+                                    continue
+                                if got != (1 << (j + 1)):
+                                    return [R.ob(name, 'pow2', R.REFUTED, '%s; e.g. %s(%#x) = %#x, the next power of two is %#x' % (bad, fn_, xv, got, 1 << (j + 1)), where=R.where_of(ctx.fn(k2), t), kernel=k2.source())]
                             break
                     if bad:
                         return [R.ob(name, 'pow2', R.UNDECIDED, bad, kernel=k2.source())]
